@@ -78,6 +78,8 @@ def run_property(prop, tier, seed, args):
     }
     qt = settings.get("query_timeout_ms", 20000 if tier == "quick" else 120000)
     budget = float(os.environ.get("VERIF_BUDGET_S", settings.get("budget_s", 150 if tier == "quick" else 1500)))
+    import shutil
+    shutil.rmtree(os.path.join(ROOT, "replays", prop), ignore_errors=True)
     cases = list(mod.cases(tier, seed))
     if args.only:
         cases = [c for c in cases if args.only in c.get("label", "")]
